@@ -160,6 +160,39 @@ pub fn run(ctx: &mut Ctx) -> (&'static str, String, bool) {
     ctx.extra("exhaustive_strings", json!(total));
     ctx.extra("exhaustive_max_len", json!(maxlen));
 
+    // token-level exhaustive: multi-character tokens (colour/codepage-reset ^8, escaped caret, colour, a
+    // double-byte character, Latin-1 and other-codepage letters, codepage letters, a reserved character)
+    {
+        const TOKENS: [&str; 11] = ["^8", "^", "^1", "あ", "美", "é", "ě", "ж", "L", "E", "|"];
+        let maxtok = ctx.tier.pick(5usize, 6usize);
+        let mut ntok = 0u64;
+        for len in 1..=maxtok {
+            let n = (TOKENS.len() as u64).pow(len as u32);
+            ntok += n;
+            let chunk = 5_000u64;
+            let parts: Vec<Part> = (0..n.div_ceil(chunk))
+                .into_par_iter()
+                .map(|c| {
+                    let mut p = Part::new();
+                    for i in c * chunk..((c + 1) * chunk).min(n) {
+                        let mut idx = i;
+                        let mut s = String::new();
+                        for _ in 0..len {
+                            s.push_str(TOKENS[(idx % TOKENS.len() as u64) as usize]);
+                            idx /= TOKENS.len() as u64;
+                        }
+                        check_string(&s, &mut p, true);
+                    }
+                    p
+                })
+                .collect();
+            for p in parts {
+                ctx.merge(p);
+            }
+        }
+        ctx.extra("token_level_strings", json!(ntok));
+    }
+
     // random longer strings: (a) over an encodable repertoire, (b) arbitrary Unicode (no codepage clause)
     let n = ctx.tier.pick(400_000u64, 20_000_000u64);
     let base = ctx.rng.fork(12);
